@@ -80,7 +80,10 @@ class AstToODataVisitor(visitor.NodeVisitor):
 
     def visit_List(self, node: ast.List) -> str:
         """:meta private:"""
-        return "(" + ", ".join(self.visit(v) for v in node.val) + ")"
+        # A single item list needs a trailing comma, otherwise it parses as a
+        # parenthesised expression:
+        trailer = "," if len(node.val) == 1 else ""
+        return "(" + ", ".join(self.visit(v) for v in node.val) + trailer + ")"
 
     def visit_Add(self, node: ast.Add) -> str:
         """:meta private:"""
